@@ -388,6 +388,10 @@ func I6(rc *RC) {
 		rc.S.Undec("I6", "ndNext~colMajorNDNext", "-", "unresolved anchor")
 		return
 	}
+	if !i13Form(rc, "tensor.(*FlatIterator).ndNext") {
+		rc.S.Undec("I6", "ndNext~colMajorNDNext", pos, "ndNext no longer has the statement skeleton the mirror map is written for (family rewritten): not compared")
+		return
+	}
 	last := regexp.MustCompile(`old\(\(len\(\$r\.shape\) - 1\)\)|\(len\(\$r\.shape\) - 1\)|%v\b`)
 	na := last.ReplaceAllString(a, "LAST")
 	nb := last.ReplaceAllString(b, "LAST")
@@ -412,6 +416,10 @@ func I6c(rc *RC) {
 	b, _, _, ok2 := iCanonText(rc, "tensor.(*FlatIterator).singlePrevious")
 	if !ok1 || !ok2 {
 		rc.S.Undec("I6c", "singleNext~singlePrevious", "-", "unresolved anchor")
+		return
+	}
+	if !i13Form(rc, "tensor.(*FlatIterator).singleNext") {
+		rc.S.Undec("I6c", "singleNext~singlePrevious", pos, "singleNext no longer has the statement skeleton the mirror map is written for (family rewritten): not compared")
 		return
 	}
 	na := alphaNormKeepRecv(a)
@@ -446,6 +454,10 @@ func I6b(rc *RC) {
 	b, _, _, ok2 := iOdometerText(rc, "tensor.(*FlatIterator).ndPrevious")
 	if !ok1 || !ok2 {
 		rc.S.Undec("I6b", "ndNext~ndPrevious", "-", "unresolved anchor")
+		return
+	}
+	if !i13Form(rc, "tensor.(*FlatIterator).ndNext") {
+		rc.S.Undec("I6b", "ndNext~ndPrevious", pos, "ndNext no longer has the statement skeleton the mirror map is written for (family rewritten): not compared")
 		return
 	}
 	// fold ndNext's local offset copy
@@ -910,4 +922,13 @@ func I14(rc *RC) {
 			rc.S.Ok("I14", fi.Key, pos, "the direction is written before the iterator is rewound")
 		}
 	}
+}
+
+// i13Form: the forward primitive still has the statement skeleton of its anchor (rule I13). The
+// mirror maps of I6/I6b/I6c are written for that form; when the whole family has been rewritten
+// in another form (inverted carry test, temporaries dropped) the maps do not apply and the
+// mirror rules abstain instead of reporting the rewrite as a one-sided edit.
+func i13Form(rc *RC, key string) bool {
+	got, _, _, ok := iCanonText(rc, key)
+	return ok && sameSkeleton(got, i13Anchors[key])
 }
